@@ -81,6 +81,10 @@ def check_doc(ctx, name, nodes):
 
 def run(ctx: Ctx):
     ctx.level = 'other'
+    ctx.bounded = getattr(ctx, 'bounded', []) + [{
+        'function': 'dznpy.json_ast.DznJsonAst.process (corpus part: twice / interleaved with another parser, frames)',
+        'bound': 'document STRUCTURE: the 5 documents of specs/docs.py; contents symbolic',
+        'result': 'obligations <document>:path*; json_ast.process[...] obligations are unbounded (arbitrary earlier state)'}]
     ctx.level_explanation = ('Parser harness: every obligation is proved for ALL leaf contents (names, values, numbers) of one document STRUCTURE; the structures are the enumerated document corpus and its single-point malformations (bound stated under assumptions): bounded in structure, unbounded in content.')
     ctx.trusted += ['orjson.loads; file I/O of load_file is outside the cone (covered by the native corpus only)']
     ctx.assumptions += ['BOUND: document structure from the corpus specs/docs.py; contents symbolic',
